@@ -33,6 +33,10 @@ func InitStream(p *xml.Decoder) (sessionID string, err error) {
 
 			// Parse XMPP stream attributes
 			for _, attrs := range elem.Attr {
+				// The stream attributes have no namespace: xml:id, xmlns:id or foo:id are not the stream id
+				if attrs.Name.Space != "" {
+					continue
+				}
 				switch attrs.Name.Local {
 				case "id":
 					sessionID = attrs.Value
